@@ -11,6 +11,7 @@ import (
 	"io"
 	"net/http"
 	"net/url"
+	"strings"
 	"sync"
 	"time"
 
@@ -45,6 +46,23 @@ func unregisteredKey() *rsa.PrivateKey {
 	return thirdKey
 }
 
+var (
+	staleKeyOnce sync.Once
+	staleKey     *rsa.PrivateKey
+)
+
+// retiredKey is the key of the stale cached key set: a key nobody signs with any more
+func retiredKey() *rsa.PrivateKey {
+	staleKeyOnce.Do(func() {
+		k, err := rsa.GenerateKey(rand.Reader, 2048)
+		if err != nil {
+			panic(err)
+		}
+		staleKey = k
+	})
+	return staleKey
+}
+
 func freshJTI() string {
 	c15Mu.Lock()
 	defer c15Mu.Unlock()
@@ -60,6 +78,19 @@ func signJWT(alg string, key interface{}, kid string, claims map[string]interfac
 			h["kid"] = kid
 		}
 		return b64json(h) + "." + b64json(claims) + "."
+	}
+	// a key of the wrong family cannot sign under this algorithm at all: substitute an unregistered key of the right family
+	// (such a combination can only be a row in which the signing key is not the registered one anyway)
+	switch k := key.(type) {
+	case *rsa.PrivateKey:
+		if strings.HasPrefix(alg, "ES") {
+			key = extraECKey("third")
+		}
+		_ = k
+	case *ecdsa.PrivateKey:
+		if strings.HasPrefix(alg, "RS") || strings.HasPrefix(alg, "PS") {
+			key = unregisteredKey()
+		}
 	}
 	opts := (&jose.SignerOptions{}).WithType("JWT")
 	if kid != "" {
@@ -136,7 +167,7 @@ func runC15(rep *TReport, raw json.RawMessage) {
 			// the keys live behind jwks_uri; the real DefaultJWKSFetcherStrategy fetches them through an in-memory transport.
 			// uri_stale: the strategy's cache holds an older key set without the key (it was rotated in afterwards).
 			oc.JSONWebKeys, oc.JSONWebKeysURI = nil, "https://j.example/jwks.json"
-			stale := &jose.JSONWebKeySet{Keys: []jose.JSONWebKey{{Key: &unregisteredKey().PublicKey, KeyID: "kid-old", Use: "sig", Algorithm: "RS256"}}}
+			stale := &jose.JSONWebKeySet{Keys: []jose.JSONWebKey{{Key: &retiredKey().PublicKey, KeyID: "kid-old", Use: "sig", Algorithm: "RS256"}}}
 			fetches := 0
 			hc := retryablehttp.NewClient()
 			hc.Logger = nil
